@@ -73,6 +73,12 @@ func c14(r *Report) propMeta {
 	}
 	_ = w
 	_ = fmt.Sprint
+	r.LoopVisitsAll("every-rewarded-validator-paid", "x/oracle/keeper.Keeper.AllocateTokens", "DistrKeeper.AllocateTokensToValidator", LoopOpts{AllowErrReturn: true})
+	r.LoopVisitsAll("every-valid-member-paid", "x/bandtss/keeper.Keeper.AllocateTokens", "BankKeeper.SendCoinsFromModuleToAccount", LoopOpts{AllowErrReturn: true})
+
+	r.Rule("C14.R8", "store-key agreement: every point read/delete addresses a written key family")
+	r.StoreKeyAgreement("store-keys", "bandtss", 8, nil)
+
 	return propMeta{
 		Decided: []string{
 			"R1 the bank/distribution methods reachable from both AllocateTokens are only balance reads, module-to-module/account sends, GetCommunityTax, FundCommunityPool and AllocateTokensToValidator (no mint, burn or user-account debit)",
@@ -82,6 +88,7 @@ func c14(r *Report) propMeta {
 			"R5 orderBeginBlockers: mint < oracle < bandtss < distribution",
 			"R6 WrappedBankKeeper.BurnCoins really burns only for the distribution module (or when no distr keeper is wired); otherwise funds the community pool with the same amount",
 			"R7 every LegacyDec/DecCoins operation on the reward path is a truncating one (QuoTruncate/MulDecTruncate/TruncateDecimal) or a subtraction",
+			"R8 every KV-store Get/Has/Delete of x/bandtss uses a key builder of x/bandtss/types that some Set of the module also uses (a probe of an iteration prefix or of a sibling family is always-empty state)",
 		},
 		Undecided: []string{"that no Sub goes negative under truncating decimals for all amounts (numerical; R7 is its structural half)", "percentages above 100 (see finding F3)", "sdk distribution internals"},
 		Assume:    []string{"bank Send* conserve supply", "distribution AllocateTokensToValidator / FundCommunityPool only re-label coins already in the distribution account"},
